@@ -92,7 +92,7 @@ def r2(db, rep):
         elif "header_.saddr" in t and t.endswith("==0") or t.startswith("0==") and "saddr" in t:
             role[a] = "D"       # we had no address (DHCP)
     unknown = [a for a in atoms if a not in role]
-    if unknown or not {"A", "B"} <= set(role.values()):
+    if unknown or "A" not in set(role.values()) and "B" not in set(role.values()):
         rep.analysis_broken("IP::matches_response: address condition uses comparisons the rule does not know: %s" % (unknown or atoms))
         return
     bad = {}
@@ -106,15 +106,18 @@ def r2(db, rep):
             env[r] = v
         if not consistent:
             continue
-        A, B, C, D = env.get("A", False), env.get("B", False), env.get("C", False), env.get("D", False)
-        if A and D:
-            pass
-        if A and B and not res:
-            bad["mirror"] = "a reply with both addresses mirrored is rejected (%s)" % env
-        if (not A) and (not D) and res:
-            bad["to-us"] = "a packet that is not addressed to our source address is accepted (%s)" % env
-        if (not C) and (not B) and res:
-            bad["from-peer"] = "for a unicast request a packet that does not come from the requested host is accepted (%s)" % env
+        import itertools
+        missing = [r for r in ("A", "B", "C", "D") if r not in env]
+        for extra in itertools.product((False, True), repeat=len(missing)):
+            e2 = dict(env)
+            e2.update(zip(missing, extra))      # a comparison the condition does not make: the result is the same either way
+            A, B, C, D = e2["A"], e2["B"], e2["C"], e2["D"]
+            if A and B and not res:
+                bad["mirror"] = "a reply with both addresses mirrored is rejected (%s)" % e2
+            if (not A) and (not D) and res:
+                bad["to-us"] = "a packet that is not addressed to our source address is accepted (%s)" % e2
+            if (not C) and (not B) and res:
+                bad["from-peer"] = "for a unicast request a packet that does not come from the requested host is accepted (%s)" % e2
     for k, what in (("mirror", "mirrored addresses can match"), ("to-us", "must be addressed to our source unless we had none"),
                     ("from-peer", "unicast: must come from the requested host")):
         key = "IP::matches_response:%s" % k
